@@ -48,6 +48,27 @@ note.txt
 aside.txt
 copy.txt
 :
+
+first.out
+middle.out
+zlast.out
+:
+blank.txt
+note.txt
+:
+mycat
+note.txt
+first.out
+;
+mycat
+blank.txt
+middle.out
+;
+mycat
+note.txt
+note.txt
+zlast.out
+:
 ";
 
 fn get(port: u16, path: &str) -> Option<(u16, Vec<u8>)>
@@ -76,6 +97,8 @@ fn verif_serve_loopback()
     write_str_to_file(&mut system, "note.txt", "N.B.\n").unwrap();
     write_str_to_file(&mut system, "refrain.txt", "La la la.\n").unwrap();
     write_str_to_file(&mut system, "secret.txt", "outside the ruler directory\n").unwrap();
+    /*  a source that holds no bytes: the middle target of the three-target rule is an empty file */
+    write_str_to_file(&mut system, "blank.txt", "").unwrap();
     /*  one big target (17 MiB): after the second build its first version sits in the cache */
     let big : String = (0..(17usize << 20) / 16).map(|i| format!("{:015}\n", i)).collect();
     write_str_to_file(&mut system, "big.bin", &big).unwrap();
